@@ -175,6 +175,8 @@ def jobs(tier):
                                 "new_process": tier == "thorough" or (method == "aes" and fmt == "json")})
     for method in b["methods"]:
         out.append({"name": "unassigned/%s" % method, "kind": "unassigned", "method": method, "plaintexts": b["plaintexts"], "formats": b["formats"]})
+        out.append({"name": "empty-lists/%s" % method, "kind": "empty-lists", "method": method})
+        out.append({"name": "late-key-directory/%s" % method, "kind": "late-keydir", "method": method})
     return out
 
 
@@ -296,12 +298,128 @@ def _unassigned(job, ctx):
     ctx.traces += 1
 
 
+def _empty_lists(job, ctx):
+    """secrets next to typed lists that are empty (assigned [], emptied in place, an empty declared default): in every
+    format - also the ones that can carry arbitrary objects - the output holds no plaintext and loads back"""
+    import cincoconfig as cc
+    tmp = ctx.tmp
+    write_keys(tmp)
+    method, only = job["method"], job.get("only")
+    P = PLAINTEXTS["long40"]
+    for how in ("assigned", "emptied", "default"):
+        for fmt in ("json", "yaml", "xml", "bson", "pickle"):
+            ident = [how, fmt]
+            if only is not None and only != ident:
+                continue
+            s = build(method, [], tmp)
+            if how == "default":
+                s.ls = cc.ListField(cc.SecureField(method=method), default=list)
+                s.nums = cc.ListField(cc.IntField(), default=[])
+            else:
+                s.nums = cc.ListField(cc.IntField())
+            cfg = cc.Config(s, key_filename=keypath(tmp, "root"))
+            cfg.s = P
+            cfg.sub.deep.s = P
+            if how == "assigned":
+                cfg.ls, cfg.items, cfg.ts, cfg.nums = [], [], [], []
+            elif how == "emptied":
+                cfg.ls, cfg.items, cfg.ts, cfg.nums = [P], [{"s": P}], [{"s": P}], [1]
+                cfg.ls.pop(); cfg.items.clear(); del cfg.ts[0]; cfg.nums.remove(1)
+            case = _case(job, ident)
+            fpb = "C03|empty-lists|%s|%s|%s|" % (how, method, fmt)
+            ctx.transitions += 1
+            try:
+                data = cfg.dumps(fmt)
+            except Exception as exc:  # noqa
+                ctx.violation(fpb + "dumps-raises", "saving a configuration with secrets and empty typed lists raised %r" % (exc,), case)
+                continue
+            ctx.case(("empty-lists", how, method, fmt), "empty-lists:ok", True)
+            raw = P.encode()
+            for needle in (raw, base64.b64encode(raw), raw.hex().encode()):
+                if needle in data:
+                    ctx.violation(fpb + "plaintext-in-output", "the %s document contains the plaintext of a secret" % fmt, case)
+                    break
+            try:
+                fresh = cc.Config(s, key_filename=keypath(tmp, "root"))
+                fresh.loads(data, fmt)
+                if [fresh.s, fresh.sub.deep.s] != [P, P]:
+                    ctx.violation(fpb + "reload-differs", "after reload the secrets read %r" % ([fresh.s, fresh.sub.deep.s],), case)
+            except BaseException as exc:  # noqa  (RecursionError included)
+                ctx.violation(fpb + "reload-raises", "loading the document back raised %s" % type(exc).__name__, case)
+    ctx.states += 1
+    ctx.traces += 1
+
+
+def _late_keydir(job, ctx):
+    """the directory of the (not yet existing) key file is missing at the first save, which therefore fails; it is then created
+    and the same object saves again: every secret of that document is encrypted under the key that is in the key file"""
+    import os
+    import cincoconfig as cc
+    tmp = ctx.tmp
+    method, only = job["method"], job.get("only")
+    P = PLAINTEXTS["long40"]
+    for nsecrets in (1, 3):
+        for fmt in ("json", "xml"):
+            for retries in (1, 2):
+                ident = [nsecrets, fmt, retries]
+                if only is not None and only != ident:
+                    continue
+                kdir = os.path.join(tmp, "late-%d-%s-%d" % (nsecrets, fmt, retries))
+                kpath = os.path.join(kdir, "app.key")
+                s = build(method, [], tmp)
+                cfg = cc.Config(s, key_filename=kpath)
+                cfg.s = P
+                if nsecrets > 1:
+                    cfg.sub.s = P
+                    cfg.ls = [P]
+                case = _case(job, ident)
+                fpb = "C03|late-key-directory|%s|%s|" % (method, fmt)
+                ctx.transitions += 1
+                failed = 0
+                for _ in range(retries):
+                    try:
+                        cfg.dumps(fmt)
+                    except Exception:  # noqa
+                        failed += 1
+                if failed != retries:
+                    ctx.violation(fpb + "saved-without-key-file", "a save succeeded although the key file could not be created (no directory)", case)
+                    continue
+                os.makedirs(kdir)
+                try:
+                    data = cfg.dumps(fmt)
+                    tree = cfg.to_tree()
+                except Exception as exc:  # noqa
+                    ctx.violation(fpb + "retry-raises", "with the directory in place the save raised %r" % (exc,), case)
+                    continue
+                ctx.case(("late-keydir", method, nsecrets, fmt, retries), "late-keydir:ok", True)
+                if not os.path.isfile(kpath):
+                    ctx.violation(fpb + "no-key-file", "the save succeeded but there is no key file", case)
+                    continue
+                key = open(kpath, "rb").read()
+                for pos, sv in collect_secrets(tree):
+                    if isinstance(sv, dict) and _try(sv.get("method"), key, base64.b64decode(sv.get("ciphertext", ""))) != P.encode():
+                        ctx.violation(fpb + "not-under-key-file|" + _poskind(pos), "%s does not decrypt under the key that is in the key file" % pos, case)
+                try:
+                    fresh = cc.Config(s, key_filename=kpath)
+                    fresh.loads(data, fmt)
+                    if fresh.s != P:
+                        ctx.violation(fpb + "reload-differs", "a new configuration with the same key file reads %r" % (fresh.s,), case)
+                except Exception as exc:  # noqa
+                    ctx.violation(fpb + "reload-raises", "a new configuration with the same key file cannot load the document: %r" % (exc,), case)
+    ctx.states += 1
+    ctx.traces += 1
+
+
 def run_job(job, ctx):
     single = job.get("single")
     if single:
         job = dict(single["jobparams_full"]); job["only"] = single["only"]
+    if job.get("kind") == "late-keydir":
+        return _late_keydir(job, ctx)
     if job.get("kind") == "unassigned":
         return _unassigned(job, ctx)
+    if job.get("kind") == "empty-lists":
+        return _empty_lists(job, ctx)
     only = job.get("only")
     CTMODE[0] = job.get("ctmode", "class")
     if only is None and job.get("new_process") or (only is not None and only[1] == ["new-process"]):
